@@ -231,6 +231,35 @@ func GetId(t vocab.Type) (*url.URL, error) {
 	return nil, fmt.Errorf("cannot determine id of activitystreams value")
 }
 
+// objectMissing returns true if the 'object' property holds no IRI and no
+// value: it is absent, empty, or has only elements that are neither, which is
+// what a JSON null is deserialized to.
+func objectMissing(op vocab.ActivityStreamsObjectProperty) bool {
+	if op == nil {
+		return true
+	}
+	for iter := op.Begin(); iter != op.End(); iter = iter.Next() {
+		if iter.IsIRI() || iter.GetType() != nil {
+			return false
+		}
+	}
+	return true
+}
+
+// targetMissing returns true if the 'target' property holds no IRI and no
+// value, like objectMissing.
+func targetMissing(tp vocab.ActivityStreamsTargetProperty) bool {
+	if tp == nil {
+		return true
+	}
+	for iter := tp.Begin(); iter != tp.End(); iter = iter.Next() {
+		if iter.IsIRI() || iter.GetType() != nil {
+			return false
+		}
+	}
+	return true
+}
+
 // getInboxForwardingValues obtains the 'inReplyTo', 'object', 'target', and
 // 'tag' values on an ActivityStreams value. Values that are neither a known
 // type nor an IRI (for example a tag of a type the vocabularies do not define)
